@@ -68,6 +68,7 @@ def check(ctx):
     r2(ctx)
     r3(ctx)
     r5_tensor(ctx)
+    r5_squareform(ctx)
     r6(ctx)
     r7_tensor(ctx)
     r8(ctx)
@@ -747,3 +748,25 @@ def r5_tensor(ctx):
                     break
         ctx.decide(problem is None, "C16-R5", fn, CONTACT, "compute_contacts", "%s: labels, and per column the %s over exactly the designated atom pairs" % (what, "soft minimum" if soft else "minimum" if scheme != "ca" else "CA-CA distance"), "",
                    problem or "")
+
+
+def r5_squareform(ctx):
+    """squareform: contact_maps[f, i, j] = contact_maps[f, j, i] = distances[f, k] for residue_pairs[k] = (i, j), zero elsewhere"""
+    fn = ctx.py.func(CONTACT, "squareform")
+    ctx.analysed_functions.add(CONTACT + ":squareform")
+    prs = [(0, 2), (3, 1), (2, 4)]
+    d = Ten.sym("c", (N_F, len(prs)))
+    ts = TenSym({})
+    try:
+        got = ts.run_fn(fn, distances=d, residue_pairs=Ten((len(prs), 2), [Rat(Poly.const(v)) for p_ in prs for v in p_]))
+        want = Ten.full((N_F, 5, 5), Rat(Poly.const(0)))
+        for f in range(N_F):
+            for k, (i, j) in enumerate(prs):
+                ts.setitem(want, (f, i, j), d.at([f, k]))
+                ts.setitem(want, (f, j, i), d.at([f, k]))
+        diff = ts.first_difference(got, want) if got is not None else "nothing returned"
+        ctx.decide(diff is None, "C16-R5", fn, CONTACT, "squareform", "maps[f, i, j] = maps[f, j, i] = distances[f, k] for pair k = (i, j); 0 elsewhere; n = max index + 1", "", "contact maps differ: %s" % diff)
+    except ShapeError as e:
+        ctx.violated("C16-R5", fn, CONTACT, "squareform", "shape of the maps", "array operations do not fit: %s" % e)
+    except (TUnsupported, PUnsupported) as e:
+        ctx.undecided("C16-R5", fn, CONTACT, "squareform", "maps", "not evaluable: %s" % e)
